@@ -46,3 +46,29 @@ NOT_CARRIED = ["_load_config_file (ConfigParser): an assumed contract - one _upd
                "InsightsConfig.__init__ (defaults, kwargs) is not under contract: load_all is verified from an arbitrary option map",
                "a non-string value reaching a path-valued option makes loading fail with TypeError/AttributeError instead of ValueError "
                "(e.g. INSIGHTS_OUTPUT_DIR=true): counted as 'loading does not succeed', not as a violation"]
+
+
+def bounded(check):
+    """bounded stand-in / native witness search: the real load_all with a real file, environment and command line"""
+    import json, os, subprocess
+    here = os.path.dirname(os.path.dirname(os.path.abspath(__file__)))
+    p = subprocess.run(["/venv/bin/python", os.path.join(here, "bounded", "config_precedence.py"), check.repo.root, "1"],
+                       stdout=subprocess.PIPE, stderr=subprocess.PIPE, universal_newlines=True, timeout=3000)
+    line = (p.stdout.strip().splitlines() or ["{}"])[-1]
+    try:
+        info = json.loads(line)
+    except ValueError:
+        info = {"error": (p.stderr or p.stdout)[-400:]}
+    out = dict(name="command line > environment > file > default on the real loader; conflicting switch combinations rejected or resolved consistently",
+               level="bounded",
+               bound="8 sample options (numeric, boolean, string, conf) x every subset of the three sources; offline x 8 requests / output locations x 3 "
+                     "obfuscation settings",
+               result=info, violation=(p.returncode == 1), error=(p.returncode not in (0, 1)))
+    if p.returncode == 1:
+        os.makedirs(os.path.join(here, "replays"), exist_ok=True)
+        path = os.path.join(here, "replays", "C16-bounded.json")
+        json.dump(dict(obligation="bounded:config-precedence", witness=info,
+                       replay_cmd="/venv/bin/python %s %s 1" % (os.path.join(here, "bounded", "config_precedence.py"), check.repo.root)),
+                  open(path, "w"), indent=1)
+        out["replay"] = path
+    return [out]
